@@ -72,14 +72,14 @@ pub static PLANS: &[PropPlan] = &[PropPlan {
     prop: "C16",
     level: "exploration",
     sims: &[SimPlan { sim: "arena", quick_runs: 100_000, thorough_runs: 2_000_000 }],
-    rule: "each run draws 1-3 simulated threads (real OS threads, real thread-local node buffer each) and, per thread, 2-40 operations over a bag of live (Value, model) pairs: parse by 10 routes (from_str, from_slice, Deserializer over Bytes/FastStr, value inside a struct, use_rawnumber alone / inside a struct / inside a Vec, element of Vec<Value>, second value of a deserializer), malformed documents through every deserializer now and then, repeated document texts, hand-off (parse, give away untouched, let others run, parse the same text again), three values through one deserializer, streams (open / next / drop before or after their values), clone root / subtree, take a child out, insert a value into another document, mutate, read-and-compare, send to another thread, receive, drop; the scheduler may switch before every arena reference-count operation and between operations; final drops happen in a drawn order and every survivor is re-read after each of them (thorough tier: for single-threaded runs ending with 2..=5 sharers every drop order is enumerated). Non-trivial = a context switch, cross-thread send, promotion or mutation happened; distinct = distinct hash of the rendered trace",
+    rule: "each run draws 1-3 simulated threads (real OS threads, real thread-local node buffer each) and, per thread, 2-40 operations over a bag of live (Value, model) pairs: parse by 10 routes (from_str, from_slice, Deserializer over Bytes/FastStr, value inside a struct, use_rawnumber alone / inside a struct / inside a Vec, element of Vec<Value>, second value of a deserializer), malformed documents through every deserializer now and then, repeated document texts, hand-off (parse, give away untouched, let others run, parse the same text again), three values through one deserializer, streams (open / next / drop before or after their values), clone root / subtree, take a child out, insert a value into another document, mutate, read-and-compare, send to another thread, receive, drop (one drop in five happens while the owning thread unwinds from an injected panic it survives); the scheduler may switch before every arena reference-count operation and between operations; final drops happen in a drawn order and every survivor is re-read after each of them (thorough tier: for single-threaded runs ending with 2..=5 sharers every drop order is enumerated). Non-trivial = a context switch, cross-thread send, promotion or mutation happened; distinct = distinct hash of the rendered trace",
     assumptions: &[
         "std::sync::Arc and bumpalo are trusted; the baton of the native engine serialises execution, so data races are out of its reach: they are the business of the Miri engine of this check (free-running threads, Miri's race detector)",
         "native engine: memory errors are observed through the simulated heap: ledger (double/invalid/wrong-layout free), 0xDE poison + quarantine (use after free reads poison, write after free detected), tail canaries on every block, leak check, the live-arena counter fed by hook events; one run in three uses the heap's reuse mode (freed blocks of the same size are handed out again, randomised) so that address-reuse (ABA) defects can show",
         "documents are small (<= 20 nodes) except the rare 400 KB document that drives the node buffer's heap fallback",
     ],
     real_vs_stub: "real: sonic-rs parser, DOM, arena ref-counting, thread-local node buffer, serde glue, std Arc, bumpalo; simulated: thread scheduling (baton over real OS threads), mailboxes between threads, heap bookkeeping; absent: clock, network, disk",
-    probes: &["context_switches", "heap_reuse_runs", "heap_blocks_reused", "arena_handoffs", "arena_created", "arena_dropped", "arena_freed_on_foreign_thread", "tls_buffer_reused", "tls_heap_fallback", "value_sent_to_thread", "value_dropped_foreign", "to_mut_promotion", "cross_arena_insert", "stream_values", "deser_dropped_before_values", "dom_rejected_ops", "dom_takes", "dom_clones"],
+    probes: &["context_switches", "heap_reuse_runs", "heap_blocks_reused", "arena_handoffs", "value_dropped_unwinding", "arena_created", "arena_dropped", "arena_freed_on_foreign_thread", "tls_buffer_reused", "tls_heap_fallback", "value_sent_to_thread", "value_dropped_foreign", "to_mut_promotion", "cross_arena_insert", "stream_values", "deser_dropped_before_values", "dom_rejected_ops", "dom_takes", "dom_clones"],
 }, PropPlan {
     prop: "C18",
     level: "exploration",
